@@ -1,17 +1,193 @@
-//! module `thick` — streams `thick.*` (not built yet).
+//! module `thick` (serves C17, stroked-line sentence) — the pixels of a stroked `Line`.
+//!
+//! Stream (compared with the Lean model `EG.Model.ThickLine`, `Thick.thickPoints`):
+//!   thick.points x0 y0 x1 y1 w -> the points of
+//!       `Line::new(s, e).into_styled(PrimitiveStyle::with_stroke(c, w)).pixels()` in emission
+//!       order (format of `m_line::pts_digest`: full list up to 64 points, count + first + last +
+//!       order-sensitive hash beyond). The same op also draws the styled line into the recording
+//!       target `R1` and checks that `draw` emits exactly the same pixel sequence in one
+//!       `draw_iter` call.
+//!
+//! Oracle = the second sentence of C17 as predicates on the real pixel list, with FIXED metrics,
+//! all in exact integer arithmetic (i128). Notation: s = start, d = (dx, dy) = end - start,
+//! L2 = dx^2 + dy^2 (L = sqrt(L2) is never computed), and for a pixel p with v = p - s:
+//!   cross(p) = dx v.y - dy v.x   (= L * signed perpendicular distance of p from the ideal line)
+//!   dot(p)   = dx v.x + dy v.y   (= L * position of the projection of p along the segment)
+//!
+//!   C17:thick-contains-thin   every point of `points()` is among the stroked pixels   (w >= 1)
+//!   C17:thick-duplicate       no pixel is yielded twice
+//!   C17:thick-band            perpendicular distance <= w/2 + 2.5:
+//!                                 4 cross(p)^2 <= (w + 5)^2 L2
+//!   C17:thick-ends            projection not more than one pixel beyond either end:
+//!                                 dot(p) >= 0 or dot(p)^2 <= L2,   and
+//!                                 dot(p) <= L2 or (dot(p) - L2)^2 <= L2
+//!   C17:thick-middle-width    "at least w - 1 pixels wide at its middle": let MID be the pixels
+//!                             whose projection is within one pixel of the midpoint of the
+//!                             segment, (2 dot(p) - L2)^2 <= 4 L2. The width at the middle is the
+//!                             perpendicular extent of MID counted in pixels,
+//!                                 (max cross(MID) - min cross(MID)) / L + 1  >=  w - 1,
+//!                             i.e. MID is non-empty and, for w >= 3,
+//!                                 (max cross - min cross)^2 >= (w - 2)^2 L2.
+//!   C17:thick-width1          for w = 1 the pixel list equals `points()` (same order)
+//!   zero-length lines (L2 = 0; the code strokes them as a horizontal line of length 0): the band /
+//!   ends / middle predicates are evaluated with d = (1, 0), L2 = 1, the direction the code uses.
+//!   C17:thick-width0          w = 0 yields no pixel
+//!   thick-draw-eq-pixels      `draw` = one `draw_iter` call with the sequence of `pixels()`
+//!
+//! Range of the random long lines: |dx|, |dy| <= 1000 and w <= 12, so that
+//! `(2w)^2 * L2` <= 576 * 2_000_000 < 2^31 and `thickness_accumulator^2` <= ((2w+3) L)^2 <
+//! (27 * 1415)^2 < 2^31: the i32 overflow of `thickness_threshold` for longer / wider lines is
+//! property C08's topic and deliberately outside this generator.
 use crate::common::*;
+use crate::m_line::{pts_digest, STARTS};
+use embedded_graphics::{
+    pixelcolor::BinaryColor,
+    prelude::*,
+    primitives::{Line, PrimitiveStyle},
+};
+use std::collections::HashSet;
 
 pub struct M;
+
+pub fn thick_oracle(ctx: &mut Ctx, s: Point, e: Point, w: u32, px: &[Point]) {
+    let thin: Vec<Point> = Line::new(s, e).points().collect();
+    if w == 0 {
+        ctx.expect(px.is_empty(), "C17:thick-width0", || format!("{:?}->{:?} w=0 yields {} px", s, e, px.len()));
+        return;
+    }
+    let set: HashSet<(i32, i32)> = px.iter().map(|p| (p.x, p.y)).collect();
+    ctx.expect(set.len() == px.len(), "C17:thick-duplicate", || {
+        format!("{:?}->{:?} w={} {} px, {} distinct", s, e, w, px.len(), set.len())
+    });
+    ctx.expect(thin.iter().all(|p| set.contains(&(p.x, p.y))), "C17:thick-contains-thin", || {
+        format!("{:?}->{:?} w={} misses a point of points()", s, e, w)
+    });
+    if w == 1 {
+        ctx.expect(px == &thin[..], "C17:thick-width1", || format!("{:?}->{:?} w=1 differs from points()", s, e));
+    }
+    let (mut dx, mut dy) = ((e.x - s.x) as i128, (e.y - s.y) as i128);
+    if dx == 0 && dy == 0 {
+        dx = 1;
+        dy = 0;
+    }
+    let l2 = dx * dx + dy * dy;
+    let wi = w as i128;
+    let (mut band_ok, mut ends_ok) = (true, true);
+    let (mut cmin, mut cmax, mut nmid) = (i128::MAX, i128::MIN, 0u32);
+    for p in px {
+        let (vx, vy) = ((p.x - s.x) as i128, (p.y - s.y) as i128);
+        let cross = dx * vy - dy * vx;
+        let dot = dx * vx + dy * vy;
+        if 4 * cross * cross > (wi + 5) * (wi + 5) * l2 {
+            band_ok = false;
+        }
+        if !(dot >= 0 || dot * dot <= l2) || !(dot <= l2 || (dot - l2) * (dot - l2) <= l2) {
+            ends_ok = false;
+        }
+        if (2 * dot - l2) * (2 * dot - l2) <= 4 * l2 {
+            nmid += 1;
+            cmin = cmin.min(cross);
+            cmax = cmax.max(cross);
+        }
+    }
+    ctx.expect(band_ok, "C17:thick-band", || format!("{:?}->{:?} w={} pixel farther than w/2+2.5 from the line", s, e, w));
+    ctx.expect(ends_ok, "C17:thick-ends", || format!("{:?}->{:?} w={} pixel more than 1 px beyond an end", s, e, w));
+    let ext = if nmid > 0 { cmax - cmin } else { -1 };
+    let mid_ok = nmid > 0 && (w < 3 || ext * ext >= (wi - 2) * (wi - 2) * l2);
+    ctx.expect(mid_ok, "C17:thick-middle-width", || {
+        format!("{:?}->{:?} w={} middle slab has {} px, perpendicular extent*L = {}", s, e, w, nmid, ext)
+    });
+}
+
+fn emit_grid(r: i32, wmax: u32, emit: &mut dyn FnMut(String)) {
+    for (sx, sy) in STARTS {
+        for dx in -r..=r {
+            for dy in -r..=r {
+                for w in 1..=wmax {
+                    emit(format!("thick.points {} {} {} {} {}", sx, sy, sx + dx, sy + dy, w));
+                }
+            }
+        }
+    }
+}
 
 impl Module for M {
     fn name(&self) -> &'static str {
         "thick"
     }
     fn rule(&self) -> &'static str {
-        "not built yet"
+        "all lines start -> start + (dx,dy), (dx,dy) in [-R,R]^2, x stroke widths 1..=W (R,W = 9,7 quick; 20,12 thorough) \
+         from 3 start points, width 0 on a small grid, then seeded random long lines with |dx|,|dy| <= 1000, w in 1..=12 \
+         (the non-overflowing range of thickness_threshold); non-trivial = width >= 2; distinct = distinct op text"
     }
-    fn generate(&self, _pid: &str, _tier: Tier, _rng: &mut Rng, _emit: &mut dyn FnMut(String)) {}
-    fn execute(&self, op: &str, _ctx: &mut Ctx) -> String {
-        panic!("unknown op {}", op)
+
+    fn generate(&self, _pid: &str, tier: Tier, rng: &mut Rng, emit: &mut dyn FnMut(String)) {
+        for dx in -2..=2 {
+            for dy in -2..=2 {
+                emit(format!("thick.points 1 -1 {} {} 0", 1 + dx, -1 + dy));
+            }
+        }
+        if tier == Tier::Quick {
+            emit_grid(9, 7, emit);
+        } else {
+            emit_grid(20, 12, emit);
+        }
+        let n = if tier == Tier::Quick { 300 } else { 6000 };
+        for _ in 0..n {
+            let sc = *rng.pick(&[30i64, 100, 300, 1000]);
+            let (x0, y0) = (rng.range(-2000, 2000), rng.range(-2000, 2000));
+            let (dx, dy) = match rng.below(10) {
+                0 => (rng.range(-sc, sc), 0),
+                1 => (0, rng.range(-sc, sc)),
+                2 => {
+                    let d = rng.range(-sc, sc);
+                    (d, if rng.chance(1, 2) { d } else { -d })
+                }
+                _ => (rng.range(-sc, sc), rng.range(-sc, sc)),
+            };
+            let w = rng.range(1, 12);
+            emit(format!("thick.points {} {} {} {} {}", x0, y0, x0 + dx, y0 + dy, w));
+        }
+    }
+
+    fn execute(&self, op: &str, ctx: &mut Ctx) -> String {
+        let mut t = Toks::new(op);
+        match t.str() {
+            "thick.points" => {
+                let s = t.point();
+                let e = t.point();
+                let w = t.u32();
+                let styled = Line::new(s, e).into_styled(PrimitiveStyle::with_stroke(BinaryColor::On, w));
+                let px: Vec<Point> = styled.pixels().map(|Pixel(p, _)| p).collect();
+                ctx.count(&format!("thick:w={}", w));
+                let (dx, dy) = (e.x - s.x, e.y - s.y);
+                ctx.count(if dx == 0 && dy == 0 {
+                    "thick:zero-length"
+                } else if dx == 0 || dy == 0 {
+                    "thick:axis-parallel"
+                } else if dx.abs() == dy.abs() {
+                    "thick:diagonal"
+                } else {
+                    "thick:oblique"
+                });
+                ctx.count(if dx.abs().max(dy.abs()) <= 20 { "thick:len<=20" } else { "thick:len>20" });
+                if w >= 2 {
+                    ctx.nontrivial(op);
+                }
+                thick_oracle(ctx, s, e, w, &px);
+                // draw() = one draw_iter call with the same sequence
+                let mut r1: R1<BinaryColor> = R1::unbounded();
+                let res = styled.draw(&mut r1);
+                let drawn: Vec<Point> = match r1.rec.log.as_slice() {
+                    [Call::DrawIter(v)] => v.iter().map(|((x, y), _)| Point::new(*x, *y)).collect(),
+                    _ => vec![Point::new(i32::MIN, i32::MIN)],
+                };
+                ctx.expect(res.is_ok() && drawn == px, "thick-draw-eq-pixels", || {
+                    format!("{:?}->{:?} w={} draw() differs from pixels()", s, e, w)
+                });
+                pts_digest(&px)
+            }
+            _ => panic!("unknown op {}", op),
+        }
     }
 }
